@@ -360,7 +360,9 @@ func newFromKanji(level Level, data []byte) (*QRCode, error) {
 	segments := []Segment{
 		{
 			Mode: modeList[best[len(best)-1].mode],
-			Data: best[len(best)-1].data,
+			// copy: the pieces are sub-slices of the caller's payload, and the
+			// appends below must not write into it.
+			Data: append([]byte(nil), best[len(best)-1].data...),
 		},
 	}
 	for i := len(best) - 2; i >= 0; i-- {
@@ -370,7 +372,7 @@ func newFromKanji(level Level, data []byte) (*QRCode, error) {
 		} else {
 			segments = append(segments, Segment{
 				Mode: mode,
-				Data: best[i].data,
+				Data: append([]byte(nil), best[i].data...),
 			})
 		}
 	}
